@@ -36,6 +36,10 @@ pub enum Fate {
     Detached,
     /// finishes, but a grandchild keeps the pipes open for `ns`
     BgHold { ns: u64 },
+    /// finishes at once; a grandchild that holds the pipes writes one more line after `ns` and
+    /// goes away (`(sleep 1.5; echo late) & echo early`): the line belongs to this test case's
+    /// output - scrut reads until every writer has closed the pipes
+    BgLate { ns: u64 },
     /// closes stdout and stderr (`exec >&- 2>&-`) and only then runs on for `ns` (None: forever)
     CloseThenLinger { ns: Option<u64> },
     /// works for `before_ns`, closes stdout and stderr, runs on for `after_ns`, then ends with 0
@@ -203,6 +207,16 @@ impl G {
                     life_ns: *ns,
                     out_fd: 1,
                     out: Bytes(vec![]),
+                });
+                ops.push(Op::Status { code: 0 });
+            }
+            Fate::BgLate { ns } => {
+                emit(&mut ops, n, 0);
+                ops.push(Op::Bg {
+                    hold: true,
+                    life_ns: *ns,
+                    out_fd: if n % 2 == 0 { 1 } else { 2 },
+                    out: format!("{}-late\n", tag).as_str().into(),
                 });
                 ops.push(Op::Status { code: 0 });
             }
@@ -418,6 +432,10 @@ pub fn fate_catalogue() -> Vec<(&'static str, Plan)> {
         ("slow-timeout", Plan::new(Fate::Slow { ns: 10 * SEC }).cfg(TestCfg { timeout_ns: Some(3 * SEC), ..Default::default() })),
         ("detached", Plan::new(Fate::Detached)),
         ("bg-hold", Plan::new(Fate::BgHold { ns: 500 * MS })),
+        ("bg-late-150ms", Plan::new(Fate::BgLate { ns: 150 * MS })),
+        ("bg-late-1500ms", Plan::new(Fate::BgLate { ns: 1500 * MS })),
+        ("bg-late-1min", Plan::new(Fate::BgLate { ns: 60 * SEC })),
+        ("bg-late-under-limit", Plan::new(Fate::BgLate { ns: 1500 * MS }).cfg(TestCfg { timeout_ns: Some(3 * SEC), ..Default::default() })),
         ("gt-lines", Plan::new(Fate::GtLines)),
         ("bracket-lines-ok", Plan::new(Fate::BracketLines { code: 0 })),
         ("bracket-lines-wrong-code", Plan::new(Fate::BracketLines { code: 7 })),
@@ -457,8 +475,9 @@ pub fn lane_fates(tier: Tier, seed: u64) -> Vec<Scenario> {
                 && (plan.cfg.timeout_ns.is_some()
                     || plan.fate == Fate::Detached
                     || plan.cfg.skip_code.is_some()
-                    // closing the one shell's outputs also swallows scrut's own dividers
-                    || matches!(plan.fate, Fate::CloseThenLinger { .. } | Fate::LateClose { .. }))
+                    // closing the one shell's outputs also swallows scrut's own dividers; a line
+                    // written late lands in whichever command of the one shell runs then
+                    || matches!(plan.fate, Fate::CloseThenLinger { .. } | Fate::LateClose { .. } | Fate::BgLate { .. }))
             {
                 continue; // per-test settings are not available in single-script mode
             }
